@@ -5,7 +5,8 @@
 From Coq Require Import List String NArith ZArith Bool.
 From SV Require Import Bin.LE Bin.Struct Bin.StructProofs Bin.RLE Bin.RLEProofs Bin.FindInsert Bin.FindInsertProofs
   Fmt.BspFormatsSpec Fmt.BspFormatsProofs Fmt.BspVisRow Fmt.BspVisRowProofs Fmt.BspTexStrings Fmt.BspTexStringsProofs
-  Fmt.BspRecords Fmt.BspRecordsProofs Fmt.VmfText Fmt.BspEntLump Fmt.BspEntLumpProofs.
+  Fmt.BspRecords Fmt.BspRecordsProofs Fmt.VmfText Fmt.BspEntLump Fmt.BspEntLumpProofs Fmt.BspDedup Fmt.BspDedupProofs Fmt.BspFlagSplit Fmt.BspFlagSplitProofs
+  Fmt.BspOverlayRec Fmt.BspOverlayRecProofs.
 Import ListNotations.
 
 (** * struct: unpack inverts pack for every format and every fitting record *)
@@ -156,3 +157,133 @@ Theorem c11_find_or_extend_unbounded_refuted :
   let '(keys', is) := fe_run false [] [[1; 2]; [2; 3]]%N in
   keys' = [1; 2]%N /\ is = [0; 1]%nat /\ slice keys' 1 2 = [2]%N.
 Proof. exact fe_unbounded_refuted. Qed.
+
+(** * De-duplicating index tables with their key functions (find_or_insert(table, key), the texdata dict of the texinfo writer)
+    The table for an arbitrary item type and key: if equal keys imply that the stored item stands for the requested one
+    (any reflexive relation [R]), every request -- for every initial table and every sequence of requests -- is answered by
+    an index that holds such an item, and the initial table is kept as a prefix. *)
+Theorem c11_dedup_table_sound : forall (A K : Type) (key : A -> K) (keq : K -> K -> bool) (R : A -> A -> Prop),
+  (forall a b, keq a b = true <-> a = b) -> (forall x, R x x) ->
+  forall l xs, (forall x y, In x (l ++ xs) -> In y (l ++ xs) -> key y = key x -> R y x) ->
+  forall s' is, dd_run key keq (dd_init key l) xs = (s', is) ->
+  Forall2 (fun x i => exists y, nth_error (fst s') i = Some y /\ R y x) xs is /\ exists ext, fst s' = l ++ ext.
+Proof. exact dedup_table_sound. Qed.
+(** Generic over the key read from the source: if the key passes [key_determines] for the attributes of the item class
+    (identity, whole value, or every attribute read untransformed or under a transformation that is injective on the values in
+    use), then for objects of that class -- identity determines the object, [tr ""] is no transformation -- the record read
+    back through the index handed out for an object is that object's record. *)
+Theorem c11_dedup_key_roundtrip : forall admitted fields k tr l xs,
+  key_determines admitted fields k = true ->
+  (forall v, tr ""%string v = v) ->
+  (forall o, In o (l ++ xs) -> map fst (snd o) = fields) ->
+  (forall o o', In o (l ++ xs) -> In o' (l ++ xs) -> fst o = fst o' -> o = o') ->
+  (forall t, In t admitted -> forall o o' f v v', In o (l ++ xs) -> In o' (l ++ xs) ->
+     assoc_f f (snd o) = Some v -> assoc_f f (snd o') = Some v' -> tr t v = tr t v' -> v = v') ->
+  forall s' is, dd_run (key_sem tr k) keyval_eqb (dd_init (key_sem tr k) l) xs = (s', is) ->
+  Forall2 (fun o i => read_back (fst s') i = Some (snd o)) xs is /\ exists ext, fst s' = l ++ ext.
+Proof. exact dedup_key_roundtrip. Qed.
+(** A key that reads only the material name fails [key_determines] (also when casefold is admitted: the other attributes are
+    not read); two records with one name and different sizes then share index 0 and the second is read back with the size of
+    the first.  With the identity key each gets its own record and a repeated object its old index. *)
+Theorem c11_dedup_key_by_name_refuted :
+  key_determines [] td_fields (KFields [("mat", "casefold")])%string = false /\
+  key_determines ["casefold"%string] td_fields (KFields [("mat", "casefold")])%string = false /\
+  (let '(s, is) := dd_run (key_sem (fun _ v => v) (KFields [("mat", "casefold")]%string)) keyval_eqb
+                          (dd_init (key_sem (fun _ v => v) (KFields [("mat", "casefold")]%string)) []) [td_a; td_b] in
+   is = [0; 0]%nat /\ read_back (fst s) 0 = Some (snd td_a) /\ snd td_a <> snd td_b) /\
+  (let '(s, is) := dd_run (key_sem (fun _ v => v) KIdentity) keyval_eqb
+                          (dd_init (key_sem (fun _ v => v) KIdentity) []) [td_a; td_b; td_a] in
+   is = [0; 1; 0]%nat /\ read_back (fst s) 1 = Some (snd td_b)) /\
+  key_determines [] td_fields KIdentity = true /\
+  key_determines [] td_fields (KFields [("width", ""); ("mat", "")])%string = true.
+Proof. exact dedup_key_by_name_refuted. Qed.
+
+(** * Helper properties that split one integer over several fields (StaticPropFlags.value_prim / value_sec)
+    Generic over the parts (shift, optional mask) read from the writer's helper properties and the shifts read from the
+    reader: if they pass [split_ok] (sorted parts tile the bits: every masked part reaches exactly to the next one, the last
+    is unmasked; reader shifts = writer shifts), EVERY value is put together again from the stored parts.  (That the last,
+    unmasked part fits its field is struct's range check: c11_pack_rejects.) *)
+Theorem c11_flag_split_roundtrip : forall parts shifts, split_ok parts shifts = true ->
+  forall v, split_read (split_write v parts) shifts = v.
+Proof. exact split_roundtrip. Qed.
+(** The secondary part masked to one byte fails [split_ok]; 0x10001 is read back as 1. *)
+Theorem c11_flag_split_masked_high_part_refuted :
+  split_ok [(0, Some 255); (8, Some 255)]%N [0; 8]%N = false /\
+  split_read (split_write 65537 [(0, Some 255); (8, Some 255)]%N) [0; 8]%N = 1%N /\
+  split_ok [(0, Some 255); (8, None)]%N [0; 8]%N = true /\
+  split_read (split_write 65537 [(0, Some 255); (8, None)]%N) [0; 8]%N = 65537%N.
+Proof. exact split_masked_high_part_refuted. Qed.
+
+(** * A boolean stored as one of two integer codes (DetailPropShape.is_cross in the detail type) *)
+Theorem c11_bool_code_roundtrip : forall c, bool_code_ok c = true -> forall b, bool_code_read c (bool_code_write c b) = b.
+Proof. exact bool_code_roundtrip. Qed.
+Theorem c11_bool_code_swapped_refuted :
+  bool_code_ok (2, 3, 3)%N = false /\ bool_code_read (2, 3, 3)%N (bool_code_write (2, 3, 3)%N true) = false.
+Proof. exact bool_code_swapped_refuted. Qed.
+
+(** * A cross reference through the file: table with key -> index -> integer field of the referring record -> reader's
+    table look-up.  Composes c11_dedup_key_roundtrip with c11_unpack_pack: if the key passes [key_determines] and every
+    index handed out fits the field (else struct raises, c11_pack_rejects), the record found through the unpacked index is
+    the record of the object referred to -- for every initial table and every sequence of referred objects. *)
+Theorem c11_reference_roundtrip : forall admitted fields k tr l xs sg w,
+  key_determines admitted fields k = true ->
+  (forall v, tr ""%string v = v) ->
+  (forall o, In o (l ++ xs) -> map fst (snd o) = fields) ->
+  (forall o o', In o (l ++ xs) -> In o' (l ++ xs) -> fst o = fst o' -> o = o') ->
+  (forall t, In t admitted -> forall o o' f v v', In o (l ++ xs) -> In o' (l ++ xs) ->
+     assoc_f f (snd o) = Some v -> assoc_f f (snd o') = Some v' -> tr t v = tr t v' -> v = v') ->
+  (0 < w)%nat ->
+  forall s' is, dd_run (key_sem tr k) keyval_eqb (dd_init (key_sem tr k) l) xs = (s', is) ->
+  Forall (fun i => in_range sg w (Z.of_nat i) = true) is ->
+  Forall2 (fun o i => exists bs, pack [KInt sg w] [VInt (Z.of_nat i)] = Some bs /\
+                                 exists z, unpack [KInt sg w] bs = Some [VInt z] /\ read_back (fst s') (Z.to_nat z) = Some (snd o)) xs is.
+Proof. exact reference_roundtrip. Qed.
+
+(** * The main overlay record: 3 values, the face array, 22 floats -- taken apart by position by the reader, written by four
+    pack calls.  If the labels generated from the source agree ([overlay_rec_ok]), then for ANY assignment of values to
+    labels and any list of at most [count] faces the block (padding seen as zero integers; sizes: c11_overlay_formats) is
+    read back position by position. *)
+Theorem c11_overlay_record_roundtrip : forall reader count rh rf rt wh wf wt,
+  overlay_rec_ok reader count (rh, rf, rt, (wh, wf, wt)) = true ->
+  rh = wh /\ rf = wf /\ rt = wt /\
+  exists r, parse_fmt reader = Some r /\ wf_fmt r = true /\ nvalues r = (List.length rh + count + List.length rt)%nat /\
+    forall (field : slot -> value) (faces : list Z), (List.length faces <= count)%nat ->
+      List.length (overlay_values field wh wt faces count) = nvalues r /\
+      (fits r (overlay_values field wh wt faces count) = true ->
+       exists bs, pack r (overlay_values field wh wt faces count) = Some bs /\ List.length bs = calcsize r /\
+                  unpack r bs = Some (overlay_values field rh rt faces count)).
+Proof. exact overlay_record_roundtrip. Qed.
+Theorem c11_overlay_record_swapped_refuted :
+  overlay_rec_ok "<ihH2i1f" 2 ([["id"]; ["a"]; ["b"]], ["faces"], [["u"]], ([["id"]; ["b"]; ["a"]], ["faces"], [["u"]]))%string = false /\
+  overlay_rec_ok "<ihH2i1f" 2 ([["id"]; ["a"]; ["b"]], ["faces"], [["u"]], ([["id"]; ["a"]; ["b"]], ["faces"], [["u"]]))%string = true.
+Proof. exact overlay_record_swapped_refuted. Qed.
+
+(** The bytes of several pack calls written one after the other are the bytes of one pack with the concatenated format
+    (the overlay writer yields four, the texdata writer two). *)
+Theorem c11_pack_app : forall f1 v1 f2 v2, List.length v1 = nvalues f1 ->
+  pack (f1 ++ f2) (v1 ++ v2) = match pack f1 v1, pack f2 v2 with Some a, Some b => Some (a ++ b) | _, _ => None end.
+Proof. exact pack_app. Qed.
+
+(** [4 * k] pad bytes are what [k] zero integers pack to: the writer's partially filled face array is, byte for byte, the
+    reader's full array with zeros behind the faces. *)
+Theorem c11_overlay_writer_block_is_reader_block : forall h t count (fs : list Z) hv tv,
+  (List.length fs <= count)%nat -> List.length hv = nvalues h ->
+  pack (overlay_writer_fmt h t count (List.length fs)) (hv ++ map VInt fs ++ tv) =
+  pack (overlay_reader_fmt h t count) (hv ++ map VInt fs ++ repeat (VInt 0) (count - List.length fs) ++ tv).
+Proof. exact overlay_writer_block_is_reader_block. Qed.
+
+(** Whole overlay block from the two obligations about today's source ([overlay_ok]: formats for every face count;
+    [overlay_rec_ok]: labels): for every face count the writer admits and every assignment of values to labels, the bytes
+    of the writer's four pack calls are the reader's block, and the reader's unpack returns every attribute from its own
+    position, the faces in order and zeros behind them. *)
+Theorem c11_overlay_block_roundtrip : forall reader head tail count wmax rmax ffmts rh rf rt wh wf wt,
+  overlay_ok reader head tail count wmax rmax ffmts = true ->
+  overlay_rec_ok reader count (rh, rf, rt, (wh, wf, wt)) = true ->
+  exists r h t, parse_fmt reader = Some r /\ parse_fmt head = Some h /\ strs_fmt tail = Some t /\
+  forall (field : slot -> value) (faces : list Z), (List.length faces <= wmax)%nat -> List.length wh = nvalues h ->
+    exists s f, In (List.length faces, s) ffmts /\ parse_fmt s = Some f /\
+      pack (h ++ f ++ t) (map field wh ++ map VInt faces ++ map field wt) = pack r (overlay_values field wh wt faces count) /\
+      (fits r (overlay_values field wh wt faces count) = true ->
+       exists bs, pack (h ++ f ++ t) (map field wh ++ map VInt faces ++ map field wt) = Some bs /\
+                  List.length bs = calcsize r /\ unpack r bs = Some (overlay_values field rh rt faces count)).
+Proof. exact overlay_block_roundtrip. Qed.
